@@ -42,6 +42,52 @@ CHECKS = {
              "factors, <=3 remainder slots."),
 }
 
+CHECKS.update({
+    "C06": dict(
+        text="Every index tuple (with repetition) over a 9-name pool (3 "
+             "spaces, spins, numbered names) is fed to the real constructors of"
+             " AntiSymmetricTensor/SymmetricTensor/Amplitude x bra-ket symmetry"
+             " 0,+1,-1 x ranks up to (3,3); the declared symmetry group is "
+             "enumerated by brute force: covariance under a generating set on "
+             "the (group-closed) tuple set, forced zeros exactly at "
+             "stabilisers with character -1, global injectivity orbit -> "
+             "canonical object; every delta pair and power; substitution "
+             "commutes with construction for every index map with <=2 moved "
+             "names; assumption declarations are idempotent, local and value "
+             "preserving in the model satisfying them.",
+        design="4 C06",
+        note="Trusted: the brute-force group enumeration (40 lines) and the "
+             "reference interpreter for part D. Bounded: rank <= (3,3), (3,3) "
+             "over 5 (7) names, maps with <= 2 moved names."),
+    "C08": dict(
+        text="order_substitutions on every partial index map over a 5-index "
+             "pool x every dict insertion order vs. simultaneous substitution; "
+             "Container.permute on every word of <=4 transpositions vs. "
+             "sequential swaps; substitute_contracted / substitute_with_generic"
+             " on grammar terms x target sets and a crowded-name family "
+             "(targets untouched, no merging, value, lowest / fresh names by "
+             "an independent spec); minimize_tensor_indices on every tuple of "
+             "<=4 names x target sets; BFS with canonical state hashing over "
+             "histories of requests to a fresh Indices registry (identity, "
+             "freshness, well-formedness at every state).",
+        design="4 C08",
+        note="Trusted: the 10-line name-sequence spec, reference interpreter. "
+             "Bounded: pool sizes, words <=4, BFS depth 4 (5), 15-event "
+             "alphabet; registry reset through Singleton._instances."),
+    "C09": dict(
+        text="Every multiset of 1..3 non-vanishing Kronecker deltas over a "
+             "9 (14) name pool with occupied/virtual/general and alpha/beta/no "
+             "spin, times every choice of tensor index tuples, times every "
+             "target set (Einstein and every explicit subset) is passed to "
+             "the real evaluate_deltas; exact value equality in the "
+             "spin-resolved free model, survival of targets, information "
+             "order within delta components.",
+        design="4 C09",
+        note="Domain restriction taken from the property (contracted indices "
+             "occur on a non-delta object). Bounded: <=3 deltas, <=2 tensors, "
+             "pool size."),
+})
+
 NOT_YET = {}
 
 
